@@ -89,12 +89,12 @@ Proof.
   intros kind [<-|[<-|[<-|[]]]]; split; vm_compute; reflexivity.
 Qed.
 
-(* KEPT FINDING (known_findings.d/C05.json): next(model.iter_periods()) — "the first period of the range" — raises TypeError although
-   iter_periods() returns the four pairs; the clause "next() yields the first (position, label) pair" is REFUTED *)
-Lemma period_iter_next_refuted :
-  exists d (span : list Z) p ps n,
-    iter_periods_M Z (locate_span SpList span) d span None None = Ret (n, p :: ps) /\
-    period_iter_next_M (iter_periods_M Z (locate_span SpList span) d span None None) = Raise TypeError.
-Proof.
-  exists exA_desc, exA_span, (0, 0), [(1, 1); (2, 2); (3, 3)], 4%nat. split; vm_compute; reflexivity.
-Qed.
+(* FIXED by 7e39627 (was the finding "next(iter_periods()) raises TypeError"): next() yields the first pair, then the second; iterating
+   the object still yields all four pairs; an empty range gives StopIteration (OtherError) *)
+Example exS_period_iter_protocol :
+  period_iter_next_M (iter_periods_M Z (locate_span SpList exA_span) exA_desc exA_span None None) = Ret (0, 0) /\
+  period_iter_next_M (iter_periods_M Z (locate_span SpArray exA_span) exA_desc exA_span (Some 2) None) = Ret (2, 2) /\
+  period_iter_next_M (iter_periods_M Z (locate_span SpIndex exA_span) exA_desc exA_span (Some 2) (Some 1)) = Raise OtherError /\
+  period_iter_protocol_M (iter_periods_M Z (locate_span SpList exA_span) exA_desc exA_span (Some 1) (Some 2))
+  = Ret (2%nat, [(1, 1); (2, 2); (1, 1); (2, 2); (1, 1); (2, 2)]).
+Proof. repeat split; vm_compute; reflexivity. Qed.
